@@ -46,7 +46,7 @@ func checkC03(c *Ctx) {
 	kernelRules(c, p, "C03", fns, "scalar-multiplication", 30, 15)
 
 	c.Rule("C03.def", "DEFASSIGN: every scalar-multiplication entry point defines all coordinates of its receiver on every return and does not read the receiver's previous value", 100)
-	c.Rule("C03.zero", "ZERO: every windowed / GLV / Straus-Shamir kernel initialises its accumulator from the neutral element (a call of Set(&infinity) / setInfinity / SetInfinity on the local that the doubling loop updates) before the scan loop", 50)
+	c.Rule("C03.zero", "ZERO: in the twisted-Edwards kernels (where the zero value of the point types is not a curve point) the local that the doubling loop updates is set to the identity before the loop (setInfinity / Set(&infinity) / whole-value store); short-Weierstrass kernels need nothing: the zero value of the Jacobian types is the point at infinity", 16)
 	name := regexp.MustCompile(`\)\.(ScalarMultiplication|ScalarMultiplicationBase|JointScalarMultiplication|JointScalarMultiplicationBase|mulWindowed|mulGLV|scalarMulWindowed|scalarMulGLV)$`)
 	for _, fn := range fluentMethods(p, regexp.MustCompile(`^ecc/`)) {
 		k := funcKey(fn)
@@ -54,35 +54,74 @@ func checkC03(c *Ctx) {
 			continue
 		}
 		checkSetterDef(c, p, eff, "C03.def", fn)
-		// accumulator initialisation: only for kernels with a loop
-		if len(loopsOf(fn)) == 0 {
+		// accumulator initialisation: only for kernels with a loop. For short-Weierstrass points
+		// the zero value of the Jacobian / extended-Jacobian types IS the point at infinity (Z = 0),
+		// so nothing is required there; on twisted Edwards curves the zero value (0,0,0) is not a
+		// point and the accumulator has to be set to the identity explicitly.
+		if len(loopsOf(fn)) == 0 || !strings.Contains(relPkg(fnPkgPath(fn)), "/") {
 			continue
 		}
-		c.Instance("C03.zero", 1)
-		ok := false
+		if pk := relPkg(fnPkgPath(fn)); !(strings.HasSuffix(pk, "/twistededwards") || strings.HasSuffix(pk, "/bandersnatch")) {
+			continue
+		}
+		// accumulators: locals that are the receiver of a doubling inside a loop
+		inLoop := map[int]bool{}
+		for _, li := range loopsOf(fn) {
+			for b := range li.blocks {
+				inLoop[b] = true
+			}
+		}
+		accs := map[*ssa.Alloc]bool{}
 		for _, b := range fn.Blocks {
+			if !inLoop[b.Index] {
+				continue
+			}
 			for _, in := range b.Instrs {
-				call, isCall := in.(*ssa.Call)
-				if !isCall {
-					continue
-				}
-				cl := calleeOf(&call.Call)
-				low := strings.ToLower(cl.Name)
-				if low == "setinfinity" && len(call.Call.Args) > 0 {
-					if _, isLocal := stripConv(call.Call.Args[0]).(*ssa.Alloc); isLocal {
-						ok = true
-					}
-				}
-				if cl.Name == "Set" && len(call.Call.Args) == 2 {
-					if g, isG := call.Call.Args[1].(*ssa.Global); isG && strings.Contains(strings.ToLower(g.Name()), "infinity") {
-						if _, isLocal := stripConv(call.Call.Args[0]).(*ssa.Alloc); isLocal {
-							ok = true
-						}
+				if call, isCall := in.(*ssa.Call); isCall && strings.HasPrefix(calleeOf(&call.Call).Name, "Double") && len(call.Call.Args) > 0 {
+					if a, isLocal := stripConv(call.Call.Args[0]).(*ssa.Alloc); isLocal {
+						accs[a] = true
 					}
 				}
 			}
 		}
-		c.Ob("C03.zero", relPkg(fnPkgPath(fn)), k, "accumulator-starts-at-infinity", p.Pos(fn.Pos()), ok, k+": no local accumulator is initialised from the neutral element before the scan loop")
+		if len(accs) == 0 {
+			continue
+		}
+		c.Instance("C03.zero", 1)
+		ok := true
+		for a := range accs {
+			init := false
+			for _, r := range *a.Referrers() {
+				switch x := r.(type) {
+				case *ssa.Call:
+					cl := calleeOf(&x.Call)
+					if len(x.Call.Args) == 0 || stripConv(x.Call.Args[0]) != ssa.Value(a) || inLoop[x.Block().Index] {
+						continue
+					}
+					if strings.ToLower(cl.Name) == "setinfinity" {
+						init = true
+					}
+					if cl.Name == "Set" && len(x.Call.Args) == 2 {
+						if g, isG := x.Call.Args[1].(*ssa.Global); isG && strings.Contains(strings.ToLower(g.Name()), "infinity") {
+							init = true
+						}
+					}
+				case *ssa.Store:
+					// res = <identity value> (whole-struct store before the loop)
+					if x.Addr == ssa.Value(a) && !inLoop[x.Block().Index] {
+						if ld, isLd := x.Val.(*ssa.UnOp); isLd {
+							if g, isG := ld.X.(*ssa.Global); isG && (strings.Contains(strings.ToLower(g.Name()), "infinity") || strings.Contains(strings.ToLower(g.Name()), "identity")) {
+								init = true
+							}
+						}
+					}
+				}
+			}
+			if !init {
+				ok = false
+			}
+		}
+		c.Ob("C03.zero", relPkg(fnPkgPath(fn)), k, "accumulator-starts-at-identity", p.Pos(fn.Pos()), ok, k+": the local that the doubling loop updates is not set to the identity (setInfinity / Set(&infinity) / whole-value store) before the loop; its zero value (0,0,0) is not a point of a twisted Edwards curve")
 	}
 	for t := range eff.Trusted {
 		c.Trust(t)
